@@ -159,13 +159,18 @@ func NewDistributedAllocator(cfg DistributedConfig, store Store) (*DistributedAl
 
 // Start initializes the allocator by loading state and setting up watches.
 func (da *DistributedAllocator) Start(ctx context.Context) error {
-	// Load existing allocations from store
-	if err := da.loadAllocations(ctx); err != nil {
+	// Watch for remote changes BEFORE reading the store, and keep them out (handleRemoteChange
+	// takes da.mu) until the stored allocations are loaded: a change another node makes while
+	// the store is being read is then either in the Query result or applied after it. With the
+	// watch registered only after the load, such a change was in neither and this node handed
+	// the announced prefix out again.
+	da.mu.Lock()
+	da.store.Watch(da.keyPrefix(), da.handleRemoteChange)
+	err := da.loadAllocations(ctx)
+	da.mu.Unlock()
+	if err != nil {
 		return fmt.Errorf("load allocations: %w", err)
 	}
-
-	// Watch for remote changes
-	da.store.Watch(da.keyPrefix(), da.handleRemoteChange)
 
 	// Start epoch ticker for lease mode
 	if da.mode == PoolModeLease {
